@@ -343,8 +343,19 @@ MeadowsExpectM(d, i, mode) ==
       nr == Len(rows)
       \* the RDMs object has ONE stimulus list (the first one of the file, or the sorted one); every value
       \* is the dissimilarity of the two stimuli its position names, whatever order the file listed them in
-      L == Loaded([k \in 1..nr |-> FileVec(rows[k], i.order)], i.order, i.sort)
-  IN [conds |-> L.conds, vec |-> L.vec, rows |-> rows,
+      \* i.dup = 1: stimuli 1 and 2 have the same name once the file extension is stripped ("a.png", "a.jpg"):
+      \* the LABELS coincide, the stimuli (and their dissimilarities) do not.  Sorting is by label; the two
+      \* equal labels may come out in either order, the values follow THEIR stimulus (vec / vecswap)
+      lab(id) == IF i.dup = 1 /\ id = 2 THEN 1 ELSE id
+      srt(rev) == SortSeq([k \in 1..Len(i.order) |-> k],
+                          LAMBDA a, b : lab(i.order[a]) < lab(i.order[b])
+                                        \/ (lab(i.order[a]) = lab(i.order[b]) /\ (IF rev THEN a > b ELSE a < b)))
+      LL(rev) == IF i.sort = 0 THEN [conds |-> i.order, vec |-> [k \in 1..nr |-> FileVec(rows[k], i.order)]]
+                 ELSE [conds |-> Pick(i.order, srt(rev)),
+                       vec |-> [k \in 1..nr |-> Reorder(FileVec(rows[k], i.order), Len(i.order), srt(rev))]]
+      L == LL(FALSE)
+  IN [conds |-> L.conds, vec |-> L.vec, rows |-> rows, condswap |-> LL(TRUE).conds, vecswap |-> LL(TRUE).vec,
+      labels |-> [k \in 1..Len(L.conds) |-> lab(L.conds[k])],
       exp |-> d.exp, ver |-> d.ver, struct |-> d.struct, shape |-> d.shape, ft |-> d.ft,
       file |-> [r \in 1..nf |-> [order |-> FileOrder(i, d, r), vec |-> FileVec(r, FileOrder(i, d, r))]],
       participant |-> CASE d.shape = "mp1t" -> <<>> [] OTHER -> [r \in 1..nr |-> d.part],
@@ -357,7 +368,7 @@ MeadowsExpectM(d, i, mode) ==
                        [] OTHER -> <<>>]
 \* the rows / values / task descriptors under the other admissible treatment of reordered tasks
 AltOf(d, i) == LET x == MeadowsExpectM(d, i, "align") IN
-               [rows |-> x.rows, vec |-> x.vec, tpos |-> x.tpos, task_index |-> x.task_index,
+               [rows |-> x.rows, vec |-> x.vec, vecswap |-> x.vecswap, tpos |-> x.tpos, task_index |-> x.task_index,
                 participant |-> x.participant]
 MeadowsExpectN(d, i) == MeadowsExpectM(d, i, "skip") @@ [alt |-> AltOf(d, i)]
 MeadowsExpect(i) == MeadowsExpectN(ParseName(FormatName(i.name)), i)
@@ -468,6 +479,8 @@ Onsets(p, len, nv) == [k \in 1..len |->
    CASE p = 1 -> 2 * k - 1
      [] p = 2 -> 2
      [] p = 3 -> IF k = len THEN nv - 2 ELSE k - 1
+     [] p = 5 -> IF k = 1 THEN 0 - 2 ELSE 2 * k - 1     \* the first event starts two volumes BEFORE the scan:
+                                                        \* the part of its response after time 0 still counts
      [] OTHER -> 2 * k - 1]
 HrfEvents(cs, p, nv) == [k \in 1..Len(cs) |-> <<cs[k], Onsets(p, Len(cs), nv)[k]>>]
                         \o (IF p = 4 THEN << <<cs[1], nv + 3>> >> ELSE <<>>)
@@ -537,16 +550,17 @@ InitMeadows ==
             \E pvar \in (IF nm.shape = "mp1t" /\ Len(parts) >= 2 THEN {0, 1} ELSE {0}),
                uperm \in (IF nm.shape = "mp1t" THEN Perms(Len(parts)) ELSE {<<>>}),
                weave \in (IF nm.shape = "mp1t" /\ Len(parts) >= 2 THEN {0, 1} ELSE {0}) :
+            \E dup \in (IF n <= 4 THEN {0, 1} ELSE {0}) :        \* (5 stimuli: 120 orders, plain names only)
             inp = [name |-> nm, order |-> order, sort |-> sort, parts |-> parts, layout |-> layout, pvar |-> pvar,
-                   uperm |-> uperm, weave |-> weave]
+                   uperm |-> uperm, weave |-> weave, dup |-> dup]
       \/ /\ ~CoreName(nm)
          /\ inp = [name |-> nm, order |-> <<3, 1, 2>>, sort |-> sort,
                    parts |-> IF nm.shape = "mp1t" THEN <<2, 1>> ELSE <<>>,
                    layout |-> IF nm.shape = "1pmt" THEN <<0, 1, 1>> ELSE <<>>, pvar |-> 0,
-                   uperm |-> IF nm.shape = "mp1t" THEN <<2, 1>> ELSE <<>>, weave |-> 0]
+                   uperm |-> IF nm.shape = "mp1t" THEN <<2, 1>> ELSE <<>>, weave |-> 0, dup |-> 0]
 \* all shapes with an anonymous epochs object, all file names with one small shape
 InitMne == /\ sec = "mne" /\ stage = "input" /\ out = <<>>
-           /\ \/ \E ne \in 1..3, nc \in 1..3, nt \in 1..3, sf \in {20, 100}, first \in {0, 2} :
+           /\ \/ \E ne \in 1..3, nc \in 1..3, nt \in 1..3, sf \in {20, 100, 256, 2048}, first \in {0, 2} :
                    \E codes \in [1..ne -> MneCodes] :
                    inp = [ne |-> ne, nc |-> nc, nt |-> nt, sfreq |-> sf, first |-> first, codes |-> codes,
                           name |-> NoEnt]
@@ -561,7 +575,7 @@ InitSpm == /\ sec = "spm" /\ stage = "input" /\ out = <<>>
            /\ \E k \in 1..SpmMaxRuns, P \in 1..2, pat \in SpmPats : \E runs \in [1..k -> SpmRuns] :
                 inp = [runs |-> runs, Y |-> SpmY(SumN(runs), P, pat)]
 InitHrf == /\ sec = "hrf" /\ stage = "input" /\ out = <<>>
-           /\ \E nc \in 1..MaxCond, s \in {10, 20, 25}, B \in {5, 10, 20}, nv \in VolSet, p \in 1..4 :
+           /\ \E nc \in 1..MaxCond, s \in {10, 20, 25}, B \in {5, 10, 20}, nv \in VolSet, p \in 1..5 :
                 \E cs \in SurjSeqs(nc) :
                 inp = [s |-> s, B |-> B, nvols |-> nv, pat |-> p, ev |-> HrfEvents(cs, p, nv)]
 InitDataset == /\ sec = "dataset" /\ stage = "input" /\ out = <<>>
@@ -639,7 +653,10 @@ MeadowsAssoc == (sec = "meadows" /\ stage = "done") =>
    /\ AssocOk([conds |-> out.expect.conds, vec |-> out.expect.vec, rows |-> out.expect.rows])
    /\ AssocOk([conds |-> out.expect.conds, vec |-> out.expect.alt.vec, rows |-> out.expect.alt.rows])
    /\ Len(out.expect.vec) >= 1 /\ Range(out.expect.rows) \subseteq Range(out.expect.alt.rows)
-   /\ (inp.sort = 1 => \A k \in 1..Len(inp.order) : out.expect.conds[k] = k)
+   /\ (inp.sort = 1 => \A k \in 1..(Len(inp.order) - 1) : out.expect.labels[k] <= out.expect.labels[k + 1])
+   /\ (inp.sort = 1 /\ inp.dup = 0 => \A k \in 1..Len(inp.order) : out.expect.conds[k] = k)
+   /\ AssocOk([conds |-> out.expect.condswap, vec |-> out.expect.vecswap, rows |-> out.expect.rows])
+   /\ (inp.dup = 0 => out.expect.vecswap = out.expect.vec)
    /\ (inp.sort = 0 => out.expect.conds = inp.order)
    /\ \A k \in 1..Len(out.expect.alt.vec) :                               \* a permutation of the file's values
         Range(out.expect.alt.vec[k]) = Range(out.expect.file[out.expect.alt.rows[k]].vec)
